@@ -618,6 +618,47 @@ func init() {
 		p.call(a[1], nil, nil, 0)
 		return nil
 	})
+	// sync.Pool: an item handed back is what the next Get returns (the pool MAY keep it; that it may also drop it
+	// is covered by New being called on an empty pool)
+	poolItems := func(p *Path, ptr *Value) *[]Value {
+		m, ok := p.natives["syncpool"].(map[*Value]*[]Value)
+		if !ok {
+			m = map[*Value]*[]Value{}
+			p.natives["syncpool"] = m
+		}
+		l, ok := m[ptr]
+		if !ok {
+			l = new([]Value)
+			m[ptr] = l
+		}
+		return l
+	}
+	reg("(*sync.Pool).Put", func(p *Path, fn *ssa.Function, a []Value) Value {
+		if x, ok := a[1].(Iface); ok && x.T == nil {
+			return nil
+		}
+		l := poolItems(p, a[0].(*Value))
+		*l = append(*l, a[1])
+		return nil
+	})
+	reg("(*sync.Pool).Get", func(p *Path, fn *ssa.Function, a []Value) Value {
+		ptr := a[0].(*Value)
+		l := poolItems(p, ptr)
+		if n := len(*l); n > 0 {
+			v := (*l)[n-1]
+			*l = (*l)[:n-1]
+			return v
+		}
+		st := (*ptr).(Struct)
+		newFn := st[len(st)-1]
+		if newFn == nil {
+			return Iface{}
+		}
+		if c, ok := newFn.(*Closure); ok && c == nil {
+			return Iface{}
+		}
+		return p.call(newFn, nil, nil, 0)
+	})
 	reg("(*sync.WaitGroup).Add", func(p *Path, fn *ssa.Function, a []Value) Value {
 		st := p.mutex(a[0].(*Value))
 		st.readers += p.concInt(a[1].(*Term))
@@ -898,6 +939,15 @@ func init() {
 	})
 	reg("(*bytes.Buffer).Len", func(p *Path, fn *ssa.Function, a []Value) Value {
 		return BVC(uint64(len(p.bufOf(a[0].(*Value)).buf)), 64)
+	})
+	reg("(*bytes.Buffer).WriteTo", func(p *Path, fn *ssa.Function, a []Value) Value {
+		b := p.bufOf(a[0].(*Value))
+		bs := b.buf
+		b.buf = nil // drained
+		if len(bs) > 0 {
+			p.ifaceWrite(a[1].(Iface), bs)
+		}
+		return Tuple{BVC(uint64(len(bs)), 64), Iface{}}
 	})
 	reg("(*bytes.Buffer).Reset", func(p *Path, fn *ssa.Function, a []Value) Value {
 		p.bufOf(a[0].(*Value)).buf = nil
@@ -1353,6 +1403,9 @@ func init() {
 				out = append(out, BVC(uint64(i), 64))
 			}
 			return Slice{A: out}
+		}
+		if n > 1 {
+			p.natives["randperm"] = true
 		}
 		for len(idx) > 0 {
 			k := p.ChooseN(len(idx))
